@@ -72,7 +72,15 @@ def job_solver(job):
     pruned_raised = set()
     for op in job["script"]:
         d = op["d"] - 1
-        desc = pydescs[d]
+        # "py" names the Python description object to use (default: the one built for d);
+        # after an edit an object built for one description holds the content of another
+        desc = pydescs[op.get("py", op["d"]) - 1]
+        if op["op"] == "edit":
+            # the caller edits its own description IN PLACE: same outer list objects, new content
+            new = games.to_python(job["descs"][d])
+            for key in ("rewards", "players", "transition_list", "final_states"):
+                desc[key][:] = new[key]
+            continue
         if op["op"] == "snap":
             emit({"e": "Snap", "d": op["d"], "snap": digest(games.snapshot(desc))})
             continue
